@@ -137,6 +137,7 @@ def run():
     out = vlib.Outcome(PID)
     n = 700 if t == "quick" else 12000
     events, metas, samples = [], [], []
+    scope_states = [0, 0]
     for fmt in ("json", "cbor"):
         insts = gen_instances(rnd, fmt, n)
         cases, spans = [], []
@@ -171,7 +172,13 @@ def run():
                 samples.append({k2: meta[k2] for k2 in ("kind", "ctx", "fmt", "schemas", "doc", "verdicts")})
         # occurrence spellings: ? * + versus 0*1 0* 1*
         occ_cases = []
-        for c in semcheck.gen_pairs(rnd, fmt, n // 4, per_schema=4):
+        # every (schema, value) state of the MC_Sem scopes A (arrays) and B (maps: optional / repeated members with cut and non-cut keys
+        # followed by wildcard members) enumerated by TLC, then random schemas
+        scope_pairs, st_, tr_ = relcheck.tlc_scope_pairs(wd, fmt, ["A", "B"], t == "quick", [])
+        scope_states[0] += st_
+        scope_states[1] += tr_
+        base_occ = [{"fmt": fmt, "rules": r_, "val": v_} for r_, v_ in scope_pairs if fmt == "cbor" or C.is_json_model(v_)]
+        for c in base_occ + semcheck.gen_pairs(rnd, fmt, n // 4, per_schema=4):
             txt = G.render(c["rules"])
             G.LONG_OCC = True
             try:
@@ -180,6 +187,8 @@ def run():
                 G.LONG_OCC = False
             if txt2 != txt:
                 occ_cases.append((c, txt, txt2))
+        if t == "quick" and len(occ_cases) > 5000:
+            occ_cases = rnd.sample(occ_cases, 5000)
         oc1 = [dict(c, cddl=t1) for c, t1, _ in occ_cases]
         oc2 = [dict(c, cddl=t2_) for c, _, t2_ in occ_cases]
         ops1, res1 = semcheck.run_cases(oc1)
@@ -196,7 +205,7 @@ def run():
             meta["accept"] = a_ == "T"
             events.append({"ev": "Occ", "sp1": "?", "sp2": "0*1", "fmt": fmt, "rules": c["rules"], "val": c["val"], "ok": a_ == "T", "ok2": b_ == "T"})
             metas.append(meta)
-    return relcheck.finish_rel(PID, out, findings, events, metas, wd, known_dev, dev_to_id, t0, 0, 0,
+    return relcheck.finish_rel(PID, out, findings, events, metas, wd, known_dev, dev_to_id, t0, scope_states[0], scope_states[1],
                                "identity instances (A / B vs B / A vs A, B; .and / .within vs A, B; .ne vs T and .eq; a..b vs a...b; prelude name vs its Appendix D "
                                "definition; ? * + vs 0*1 0* 1*) over random operand types incl. arrays/maps/choices/controls, in 4 contexts (top, array element, map value, "
                                "generic argument), each run by both validators on instances of A, of B, boundary values, mutants and junk; Trace_Rel rebuilds the "
